@@ -60,6 +60,9 @@ type fsFacts struct {
 	memo      map[ssa.Value]pathClass
 	busy      map[ssa.Value]bool
 	staging   string // constant value of the staging directory name
+	// the unexported fields of fsstore.Store, found by their types: the base path (the string), the escaping
+	// function (string -> string) and the sharding function (key, *[]string)
+	baseF, escF, shardF string
 }
 
 func gatherFS(p *core.Program) *fsFacts {
@@ -70,6 +73,20 @@ func gatherFS(p *core.Program) *fsFacts {
 			f.inPkg[fn] = true
 		}
 	}
+	st := p.NamedType("storage/fsstore", "Store")
+	f.baseF = oneField(st, func(v *types.Var) bool { return isString(v.Type()) })
+	f.escF = oneField(st, func(v *types.Var) bool {
+		sig, ok := v.Type().Underlying().(*types.Signature)
+		return ok && sig.Params().Len() == 1 && sig.Results().Len() == 1 && isString(sig.Params().At(0).Type()) && isString(sig.Results().At(0).Type())
+	})
+	f.shardF = oneField(st, func(v *types.Var) bool {
+		sig, ok := v.Type().Underlying().(*types.Signature)
+		if !ok || sig.Params().Len() != 2 || sig.Results().Len() != 0 {
+			return false
+		}
+		_, isPtr := sig.Params().At(1).Type().Underlying().(*types.Pointer)
+		return isString(sig.Params().At(0).Type()) && isPtr
+	})
 	return f
 }
 
@@ -81,7 +98,7 @@ func (f *fsFacts) analyseKeyToPath(c *core.Ctx) {
 	for _, fn := range f.fns {
 		var shardCalls []*ssa.Call
 		for _, ci := range core.Calls(fn) {
-			if cv := core.CallValue(ci); cv != nil && fieldFuncCall(ci, "Store", "shardingFunc") {
+			if cv := core.CallValue(ci); cv != nil && fieldFuncCall(ci, "Store", f.shardF) {
 				shardCalls = append(shardCalls, cv)
 			}
 		}
@@ -93,7 +110,7 @@ func (f *fsFacts) analyseKeyToPath(c *core.Ctx) {
 		for _, sc := range shardCalls {
 			arg := core.Strip(sc.Call.Args[0])
 			ec, ok := arg.(*ssa.Call)
-			escOK := ok && fieldFuncCall(ec, "Store", "escapingFunc")
+			escOK := ok && fieldFuncCall(ec, "Store", f.escF)
 			if escOK {
 				// the escaping function's argument is a string parameter (the key)
 				_, isParam := core.Strip(ec.Call.Args[0]).(*ssa.Parameter)
@@ -130,7 +147,7 @@ func (f *fsFacts) analyseKeyToPath(c *core.Ctx) {
 					switch x := in.(type) {
 					case *ssa.Store:
 						if ia, ok := x.Addr.(*ssa.IndexAddr); ok && isSlotLoad(ia.X) {
-							if i, isC := core.ConstInt(ia.Index); isC && i == 0 && core.IsFieldRef(x.Val, "Store", "basepath") {
+							if i, isC := core.ConstInt(ia.Index); isC && i == 0 && core.IsFieldRef(x.Val, "Store", f.baseF) {
 								hasBase = true
 							} else {
 								hasRawParam = true // any other element store is not part of the accepted shape
@@ -147,7 +164,7 @@ func (f *fsFacts) analyseKeyToPath(c *core.Ctx) {
 					case ssa.CallInstruction:
 						for _, a := range x.Common().Args {
 							if a == ssa.Value(slot) {
-								if fieldFuncCall(x, "Store", "shardingFunc") {
+								if fieldFuncCall(x, "Store", f.shardF) {
 									sharded = true
 								} else {
 									hasRawParam = true
@@ -165,6 +182,35 @@ func (f *fsFacts) analyseKeyToPath(c *core.Ctx) {
 			f.keyToPath[fn] = true
 		}
 	}
+}
+
+// classifyResult joins the classes of what a package function returns as result idx (failure returns aside).
+func (f *fsFacts) classifyResult(cal *ssa.Function, idx int) pathClass {
+	cls := pathClass(-1)
+	ei := core.ErrResultIndex(cal)
+	for _, ret := range core.Returns(cal) {
+		if idx >= len(ret.Results) {
+			return pcOther
+		}
+		if ei >= 0 && ei != idx && core.ResultNilness(ret, ei) == core.NonNil {
+			continue
+		}
+		for _, rv := range core.ResultValues(ret, idx) {
+			if core.IsZeroMarker(rv) {
+				continue
+			}
+			c2 := f.classify(rv)
+			if cls == -1 {
+				cls = c2
+			} else if cls != c2 {
+				cls = pcOther
+			}
+		}
+	}
+	if cls == -1 {
+		return pcOther
+	}
+	return cls
 }
 
 func isString(t types.Type) bool {
@@ -194,7 +240,7 @@ func (f *fsFacts) classify1(v ssa.Value) pathClass {
 		return pcConst
 	case *ssa.UnOp:
 		if x.Op == token.MUL {
-			if core.IsFieldRef(x, "Store", "basepath") {
+			if core.IsFieldRef(x, "Store", f.baseF) {
 				return pcBase
 			}
 			switch a := x.X.(type) {
@@ -254,7 +300,33 @@ func (f *fsFacts) classify1(v ssa.Value) pathClass {
 			return pcOther
 		}
 		if exported {
-			if x.Name() == "basepath" {
+			// the exported initialiser's parameter that is stored into the base-path field
+			isBase := false
+			for _, ref := range *x.Referrers() {
+				if stI, ok := ref.(*ssa.Store); ok {
+					if fa, ok := stI.Addr.(*ssa.FieldAddr); ok && core.FieldName(fa) == "Store."+f.baseF {
+						isBase = true
+					}
+				}
+			}
+			if !isBase && isString(x.Type()) {
+				// ... or of an exported helper that the package itself only ever hands the base path
+				sites, allBase := 0, true
+				for _, g := range f.fns {
+					for _, gg := range core.WithClosures(g) {
+						for _, ci := range core.Calls(gg) {
+							if ci.Common().StaticCallee() == fn && idx < len(ci.Common().Args) {
+								sites++
+								if f.classify(ci.Common().Args[idx]) != pcBase {
+									allBase = false
+								}
+							}
+						}
+					}
+				}
+				isBase = sites > 0 && allBase
+			}
+			if isBase {
 				return pcBase
 			}
 			if isString(x.Type()) {
@@ -293,9 +365,19 @@ func (f *fsFacts) classify1(v ssa.Value) pathClass {
 			}
 		}
 		return cls
+	case *ssa.Extract:
+		// a result of a helper of the package (a step of PutStream split off into its own function): what the helper returns
+		if cl, ok := x.Tuple.(*ssa.Call); ok {
+			if cal := cl.Call.StaticCallee(); cal != nil && f.inPkg[cal] {
+				return f.classifyResult(cal, x.Index)
+			}
+		}
 	case *ssa.Call:
 		if cal := x.Call.StaticCallee(); cal != nil && f.keyToPath[cal] {
 			return pcDest
+		}
+		if cal := x.Call.StaticCallee(); cal != nil && f.inPkg[cal] && cal.Signature.Results().Len() == 1 {
+			return f.classifyResult(cal, 0)
 		}
 		if core.IsPkgFunc(x, "encoding/hex", "EncodeToString") {
 			return pcRandom
@@ -723,7 +805,7 @@ func runC18(c *core.Ctx) {
 		key := core.FuncKey(ps)
 		// the staging file: result 0 of the write-mode OpenFile
 		var open *ssa.Call
-		for _, ci := range core.Calls(ps) {
+		for _, ci := range core.CallsR(ps) {
 			if core.IsPkgFunc(ci, "os", "OpenFile") {
 				open = core.CallValue(ci)
 			}
@@ -738,7 +820,7 @@ func runC18(c *core.Ctx) {
 				}
 				okW := false
 				for _, v := range core.ResultValues(ret, 0) {
-					if f.isCapturedOpen(v, open) {
+					if f.isCapturedOpen(core.RegionOf(ps), v, open) {
 						okW = true
 					}
 				}
@@ -754,7 +836,11 @@ func runC18(c *core.Ctx) {
 				var moves []ssa.CallInstruction
 				var closes []*ssa.Call
 				var removes []ssa.CallInstruction
-				for _, ci := range core.Calls(cl) {
+				rgc := core.RegionOf(cl)
+				for _, ci := range core.CallsR(cl) {
+					if rgc.HelperOf(ci) != nil {
+						continue // a helper the commit step was moved into: its body is looked at here, as part of the closure
+					}
 					if core.IsPkgFunc(ci, "os", "Rename") {
 						moves = append(moves, ci)
 					}
@@ -763,7 +849,7 @@ func runC18(c *core.Ctx) {
 					}
 					if cv := core.CallValue(ci); cv != nil && core.IsMethod(ci, "os", "File", "Close") {
 						// receiver is the captured staging file
-						if f.isCapturedOpen(core.Receiver(ci), open) {
+						if f.isCapturedOpen(rgc, core.Receiver(ci), open) {
 							closes = append(closes, cv)
 						}
 					}
@@ -782,7 +868,7 @@ func runC18(c *core.Ctx) {
 					var nilEdges map[core.Edge]bool = map[core.Edge]bool{}
 					for _, cz := range closes {
 						for e := range core.EdgesWhere(cl, func(r core.Rel) bool {
-							return r.Op == token.EQL && core.Strip(r.X) == ssa.Value(cz) && core.IsNilConst(r.Y)
+							return r.Op == token.EQL && core.SameValue(r.X, cz) && core.IsNilConst(r.Y)
 						}) {
 							nilEdges[e] = true
 						}
@@ -792,7 +878,7 @@ func runC18(c *core.Ctx) {
 					// abort branch: key == "" edge cannot reach the rename
 					abortEdges := core.EdgesWhere(cl, func(r core.Rel) bool {
 						s, isS := core.ConstString(r.Y)
-						_, isParam := core.Strip(r.X).(*ssa.Parameter)
+						_, isParam := rgc.Canon(r.X).(*ssa.Parameter)
 						return r.Op == token.EQL && isS && s == "" && isParam
 					})
 					if len(abortEdges) == 0 {
@@ -876,12 +962,12 @@ func reachesOS(f *fsFacts, fn *ssa.Function, name string, seen map[*ssa.Function
 }
 
 // isCapturedOpen: v is (a free variable bound to) result 0 of the OpenFile call.
-func (f *fsFacts) isCapturedOpen(v ssa.Value, open *ssa.Call) bool {
+func (f *fsFacts) isCapturedOpen(rg *core.Region, v ssa.Value, open *ssa.Call) bool {
 	v = core.Strip(v)
 	if extractOf(v, open, 0) {
 		return true
 	}
-	sl := core.BackSlice(v, core.SliceOpts{Stores: true})
+	sl := core.BackSlice(v, core.SliceOpts{Stores: true, Region: rg})
 	for w := range sl {
 		if extractOf(w, open, 0) {
 			return true
